@@ -10,9 +10,15 @@ TStart   == /\ IsEvent("Start") /\ E.i \in Idx /\ Start(E.i)
             /\ E.has_cid = IsCall(E.i) /\ E.ctype_ok = TRUE /\ ("pending" \in DOMAIN E => E.pending = Cardinality(futures'))
 \* the server handled the head of the request queue
 TServe   == /\ IsEvent("Serve") /\ Serve
-            /\ E.call = Head(reqQ).call /\ E.executed = TRUE /\ E.acks = 1
-            /\ E.published = IsCall(Head(reqQ).call)
-            /\ (E.published => (E.same_cid = TRUE /\ E.to_reply_queue = TRUE /\ E.ctype_ok = TRUE))
+            /\ LET m == Head(reqQ) IN
+               CASE m.foreign = "garbage" -> E.executed = FALSE /\ E.acks = 0 /\ E.published = FALSE      \* nothing ran, nothing was acknowledged
+                 [] m.foreign = "noreply" -> /\ E.call = 0 /\ E.executed = TRUE /\ E.acks = 1 /\ E.published = TRUE
+                                             /\ E.same_cid = TRUE /\ E.to_nowhere = TRUE /\ E.ctype_ok = TRUE
+                 [] OTHER -> /\ E.call = m.call /\ E.executed = TRUE /\ E.acks = 1
+                             /\ E.published = IsCall(m.call)
+                             /\ (E.published => (E.same_cid = TRUE /\ E.to_reply_queue = TRUE /\ E.ctype_ok = TRUE))
+\* another producer put a request on the request queue
+TForeign == IsEvent("Foreign") /\ Foreign(E.k)
 \* the broker delivered the head of a reply queue to the client's result consumer
 TDeliver == /\ IsEvent("Deliver") /\ E.q \in Queues /\ DeliverReply(E.q) /\ ("pending" \in DOMAIN E => E.pending = Cardinality(futures'))
 TStray   == IsEvent("Stray") /\ Stray(E.q, E.cid, E.ctype)
@@ -26,6 +32,6 @@ TOutcome == /\ IsEvent("Outcome") /\ E.i \in Idx /\ cst[E.i] = (IF E.k = "raise"
 TEnd     == /\ IsEvent("End") /\ E.waiting = Cardinality({i \in Idx : cst[i] = "waiting"})
             /\ ("pending" \in DOMAIN E => E.pending = Cardinality(futures))
             /\ UNCHANGED vars
-TraceNext == TStart \/ TServe \/ TDeliver \/ TStray \/ TClose \/ TOutcome \/ TEnd
-TraceConstraint == TypeOK /\ NoCrossTalk /\ AnswerAfterServe /\ NotifyFireAndForget /\ FuturesExact /\ ServedOnce /\ RaisesOnlyFor /\ Progress
+TraceNext == TStart \/ TForeign \/ TServe \/ TDeliver \/ TStray \/ TClose \/ TOutcome \/ TEnd
+TraceConstraint == TypeOK /\ NoCrossTalk /\ AnswerAfterServe /\ NotifyFireAndForget /\ FuturesExact /\ ServedOnce /\ RaisesOnlyFor /\ ForeignHarmless /\ Progress
 =============================================================================
